@@ -148,27 +148,28 @@ Lemma prefix_skip {A} (s f a : list A) : s = f ++ a -> f ++ skipn (length f) s =
 Proof. intros ->. now rewrite skipn_app, skipn_all, Nat.sub_diag. Qed.
 
 (* ---- T1: totality ---- *)
-Lemma loop_done F full doc : forall fuel s line col,
-  valid_text s -> (length s < fuel)%nat -> snd (loop fuel (S F) full doc s line col) = Done.
+Lemma loop_done F full doc : forall fuel afS s line col,
+  valid_text s -> (length s < fuel)%nat -> snd (loop fuel (S F) full doc afS s line col) = Done.
 Proof.
-  induction fuel as [|fu IH]; intros s line col Hv Hl; [lia|]. cbn [loop].
+  induction fuel as [|fu IH]; intros afS s line col Hv Hl; [lia|]. cbn [loop].
   destruct s as [|c t]; [reflexivity|].
   destruct (mem_char c fastchars).
-  - destruct (loop fu (S F) full doc t line (col + 1)) as [r st] eqn:E. cbn [snd].
-    assert (H : snd (loop fu (S F) full doc t line (col + 1)) = Done).
+  - destruct (loop fu (S F) full doc false t line (col + 1)) as [r st] eqn:E. cbn [snd].
+    assert (H : snd (loop fu (S F) full doc false t line (col + 1)) = Done).
     { apply IH; [now inversion Hv|cbn [length] in Hl; lia]. }
     now rewrite E in H.
   - destruct (scan_prods (S F) full doc (tl productions) (c :: t)) as [name0 found0|f|] eqn:Es.
     + destruct (complete (S F) full name0 found0 (c :: t)) as [name1 found1] eqn:Ec.
       destruct (classify name1 found1 (c :: t)) as [[name found] value] eqn:Ek.
       destruct (advance line col found) as [line' col'].
-      destruct (loop fu (S F) full doc (skipn (length found) (c :: t)) line' col') as [r st] eqn:E.
+      set (afS' := if doc || negb (tokty_eqb name T_COMMENT) then tokty_eqb name T_S else afS).
+      destruct (loop fu (S F) full doc afS' (skipn (length found) (c :: t)) line' col') as [r st] eqn:E.
       cbn [snd].
       assert (Hne : found <> []).
       { apply scan_tok in Es. destruct Es as (r0 & a & Hin & Hp).
         eapply classify_nonempty; [|exact Ek]. eapply complete_nonempty; [|exact Ec].
         eapply pm_progress; [|exact Hp]. eapply prods_nonnull; exact Hin. }
-      assert (H : snd (loop fu (S F) full doc (skipn (length found) (c :: t)) line' col') = Done).
+      assert (H : snd (loop fu (S F) full doc afS' (skipn (length found) (c :: t)) line' col') = Done).
       { apply IH; [now apply valid_skipn|].
         assert (length (skipn (length found) (c :: t)) < length (c :: t))%nat
           by (apply skipn_shorter; [assumption|discriminate]). lia. }
@@ -198,29 +199,30 @@ Proof.
   assert (Hs2 : valid_text (snd (fst csres))).
   { unfold csres. destruct (starts_with s_charset_sp s1); cbn [fst snd]; [now apply valid_skipn|assumption]. }
   destruct csres as [[cs s2] col2]. cbn [fst snd] in Hs2.
-  destruct (loop (S (length s2)) F full doc s2 1 col2) as [r st] eqn:E. cbn [snd].
-  assert (H : snd (loop (S (length s2)) F full doc s2 1 col2) = Done).
+  destruct (loop (S (length s2)) F full doc false s2 1 col2) as [r st] eqn:E. cbn [snd].
+  assert (H : snd (loop (S (length s2)) F full doc false s2 1 col2) = Done).
   { rewrite HF. apply loop_done; [assumption|lia]. }
   now rewrite E in H.
 Qed.
 
 (* ---- T2: tiling (nothing skipped, nothing read twice) ---- *)
-Lemma loop_tiling F doc : forall fuel s line col,
-  snd (loop fuel F false doc s line col) = Done ->
-  concat (map snd (fst (loop fuel F false doc s line col))) = s.
+Lemma loop_tiling F doc : forall fuel afS s line col,
+  snd (loop fuel F false doc afS s line col) = Done ->
+  concat (map snd (fst (loop fuel F false doc afS s line col))) = s.
 Proof.
-  induction fuel as [|fu IH]; intros s line col; cbn [loop]; [discriminate|].
+  induction fuel as [|fu IH]; intros afS s line col; cbn [loop]; [discriminate|].
   destruct s as [|c t]; [reflexivity|].
   destruct (mem_char c fastchars).
-  - specialize (IH t line (col + 1)).
-    destruct (loop fu F false doc t line (col + 1)) as [r st]. cbn [fst snd] in *.
+  - specialize (IH false t line (col + 1)).
+    destruct (loop fu F false doc false t line (col + 1)) as [r st]. cbn [fst snd] in *.
     intros H. cbn [map concat snd app]. now rewrite (IH H).
   - destruct (scan_prods F false doc (tl productions) (c :: t)) as [name0 found0|f|] eqn:Es.
     + unfold complete.
       destruct (classify name0 found0 (c :: t)) as [[name found] value] eqn:Ek.
       destruct (advance line col found) as [line' col'].
-      specialize (IH (skipn (length found) (c :: t)) line' col').
-      destruct (loop fu F false doc (skipn (length found) (c :: t)) line' col') as [r st].
+      set (afS' := if doc || negb (tokty_eqb name T_COMMENT) then tokty_eqb name T_S else afS).
+      specialize (IH afS' (skipn (length found) (c :: t)) line' col').
+      destruct (loop fu F false doc afS' (skipn (length found) (c :: t)) line' col') as [r st].
       cbn [fst snd] in *. intros H. cbn [map concat snd]. rewrite (IH H).
       apply scan_tok in Es. destruct Es as (r0 & a & Hin & Hp). apply pm_split in Hp.
       apply classify_found in Ek. destruct Ek as [->|[-> Hsp]].
@@ -251,8 +253,8 @@ Proof.
   assert (Hc : concat (map snd cs) ++ s2 = s1).
   { destruct (starts_with s_charset_sp s1) eqn:E; inversion Ec; subst; cbn [map concat snd]; [|reflexivity].
     apply starts_with_split in E. rewrite app_nil_r. symmetry. exact E. }
-  pose proof (loop_tiling F doc (S (length s2)) s2 1 col2) as Hl.
-  destruct (loop (S (length s2)) F false doc s2 1 col2) as [r st]. cbn [fst snd] in *.
+  pose proof (loop_tiling F doc (S (length s2)) false s2 1 col2) as Hl.
+  destruct (loop (S (length s2)) F false doc false s2 1 col2) as [r st]. cbn [fst snd] in *.
   intros H. rewrite !map_app, !concat_app, (Hl H), Hc. exact Hb.
 Qed.
 
@@ -302,14 +304,14 @@ Qed.
 Lemma mem_char_neq c d l : mem_char c l = true -> mem_char d l = false -> c <> d.
 Proof. intros H1 H2 ->. congruence. Qed.
 
-Lemma loop_positions F doc : forall fuel s line col,
-  positions_ok line col (fst (loop fuel F false doc s line col)).
+Lemma loop_positions F doc : forall fuel afS s line col,
+  positions_ok line col (fst (loop fuel F false doc afS s line col)).
 Proof.
-  induction fuel as [|fu IH]; intros s line col; cbn [loop]; [exact I|].
+  induction fuel as [|fu IH]; intros afS s line col; cbn [loop]; [exact I|].
   destruct s as [|c t]; [exact I|].
   destruct (mem_char c fastchars) eqn:Ef.
-  - specialize (IH t line (col + 1)).
-    destruct (loop fu F false doc t line (col + 1)) as [r st]. cbn [fst snd positions_ok] in *.
+  - specialize (IH false t line (col + 1)).
+    destruct (loop fu F false doc false t line (col + 1)) as [r st]. cbn [fst snd positions_ok] in *.
     split; [now split|].
     assert (Hc : c <> 10) by (eapply mem_char_neq; [exact Ef|exact fast_no_lf]).
     unfold advance. cbn [count_char]. apply N.eqb_neq in Hc. rewrite Hc. cbn [fst snd].
@@ -319,10 +321,11 @@ Proof.
     unfold complete.
     destruct (classify name0 found0 (c :: t)) as [[name found] value].
     destruct (advance line col found) as [line' col'] eqn:Ea.
-    specialize (IH (skipn (length found) (c :: t)) line' col').
-    destruct (loop fu F false doc (skipn (length found) (c :: t)) line' col') as [r st].
+    set (afS' := if doc || negb (tokty_eqb name T_COMMENT) then tokty_eqb name T_S else afS).
+    specialize (IH afS' (skipn (length found) (c :: t)) line' col').
+    destruct (loop fu F false doc afS' (skipn (length found) (c :: t)) line' col') as [r st].
     cbn [fst snd positions_ok] in *. rewrite Ea. cbn [fst snd]. split; [|exact IH].
-    destruct (doc || negb (tokty_eqb name T_COMMENT)); [now split|exact I].
+    destruct ((doc || negb (tokty_eqb name T_COMMENT)) && negb (afS && tokty_eqb name T_S)); [now split|exact I].
 Qed.
 
 (* a leading BOM token is zero-width for column counting (the repository's
@@ -350,15 +353,15 @@ Proof.
   { destruct (pm F br text) as [[found rest]|]; inversion Eb; subst; cbn [length]; split; try lia;
       repeat constructor. }
   destruct (starts_with s_charset_sp s1) eqn:Ec.
-  - pose proof (loop_positions F doc (S (length (skipn (length s_charset_sp) s1)))
+  - pose proof (loop_positions F doc (S (length (skipn (length s_charset_sp) s1))) false
                   (skipn (length s_charset_sp) s1) 1 (1 + Nlen s_charset_sp)) as Hl.
-    destruct (loop _ F false doc (skipn (length s_charset_sp) s1) 1 (1 + Nlen s_charset_sp)) as [r st].
+    destruct (loop _ F false doc false (skipn (length s_charset_sp) s1) 1 (1 + Nlen s_charset_sp)) as [r st].
     eexists. split; [reflexivity|]. split; [tauto|]. split; [tauto|].
     cbn [fst snd app positions_ok] in *. split; [now split|].
     replace (advance 1 1 s_charset_sp) with (1, 1 + Nlen s_charset_sp) by (vm_compute; reflexivity).
     exact Hl.
-  - pose proof (loop_positions F doc (S (length s1)) s1 1 1) as Hl.
-    destruct (loop (S (length s1)) F false doc s1 1 1) as [r st].
+  - pose proof (loop_positions F doc (S (length s1)) false s1 1 1) as Hl.
+    destruct (loop (S (length s1)) F false doc false s1 1 1) as [r st].
     eexists. split; [reflexivity|]. split; [tauto|]. split; [tauto|]. exact Hl.
 Qed.
 
@@ -402,24 +405,25 @@ Qed.
 Lemma char_not_decoding : kind_in T_CHAR decoding_kinds = false.
 Proof. vm_compute. reflexivity. Qed.
 
-Lemma loop_values F doc : forall fuel s line col,
-  Forall value_ok (fst (loop fuel F false doc s line col)).
+Lemma loop_values F doc : forall fuel afS s line col,
+  Forall value_ok (fst (loop fuel F false doc afS s line col)).
 Proof.
-  induction fuel as [|fu IH]; intros s line col; cbn [loop]; [constructor|].
+  induction fuel as [|fu IH]; intros afS s line col; cbn [loop]; [constructor|].
   destruct s as [|c t]; [constructor|].
   destruct (mem_char c fastchars).
-  - specialize (IH t line (col + 1)).
-    destruct (loop fu F false doc t line (col + 1)) as [r st]. cbn [fst snd] in *.
+  - specialize (IH false t line (col + 1)).
+    destruct (loop fu F false doc false t line (col + 1)) as [r st]. cbn [fst snd] in *.
     constructor; [|exact IH]. unfold value_ok. cbn [fst snd ty val]. now rewrite char_not_decoding.
   - destruct (scan_prods F false doc (tl productions) (c :: t)) as [name0 found0|f|] eqn:Es;
       [|exfalso; now apply (scan_nofull_nocomment F doc (tl productions) (c :: t) f)|constructor].
     unfold complete.
     destruct (classify name0 found0 (c :: t)) as [[name found] value] eqn:Ek.
     destruct (advance line col found) as [line' col'].
-    specialize (IH (skipn (length found) (c :: t)) line' col').
-    destruct (loop fu F false doc (skipn (length found) (c :: t)) line' col') as [r st].
+    set (afS' := if doc || negb (tokty_eqb name T_COMMENT) then tokty_eqb name T_S else afS).
+    specialize (IH afS' (skipn (length found) (c :: t)) line' col').
+    destruct (loop fu F false doc afS' (skipn (length found) (c :: t)) line' col') as [r st].
     cbn [fst snd] in *. constructor; [|exact IH].
-    destruct (doc || negb (tokty_eqb name T_COMMENT)); [|exact I].
+    destruct ((doc || negb (tokty_eqb name T_COMMENT)) && negb (afS && tokty_eqb name T_S)); [|exact I].
     apply classify_value in Ek. exact Ek.
 Qed.
 
@@ -458,17 +462,17 @@ Proof.
       intros H; inversion H; subst; reflexivity.
 Qed.
 
-Lemma loop_eof F doc : forall fuel s line col,
-  snd (loop fuel F true doc s line col) = Done ->
-  exists init e, fst (loop fuel F true doc s line col) = init ++ [e]
+Lemma loop_eof F doc : forall fuel afS s line col,
+  snd (loop fuel F true doc afS s line col) = Done ->
+  exists init e, fst (loop fuel F true doc afS s line col) = init ++ [e]
                  /\ Forall not_eof init /\ is_eof e.
 Proof.
-  induction fuel as [|fu IH]; intros s line col; cbn [loop]; [discriminate|].
+  induction fuel as [|fu IH]; intros afS s line col; cbn [loop]; [discriminate|].
   destruct s as [|c t].
   - intros _. exists [], (Some (mkTok T_EOF [] line col), []). repeat split. constructor.
   - destruct (mem_char c fastchars).
-    + specialize (IH t line (col + 1)).
-      destruct (loop fu F true doc t line (col + 1)) as [r st]. cbn [fst snd] in *.
+    + specialize (IH false t line (col + 1)).
+      destruct (loop fu F true doc false t line (col + 1)) as [r st]. cbn [fst snd] in *.
       intros H. destruct (IH H) as (init & e & -> & Hi & He).
       exists ((Some (mkTok T_CHAR [c] line col), [c]) :: init), e. repeat split; [|assumption].
       constructor; [reflexivity|assumption].
@@ -476,12 +480,13 @@ Proof.
       * destruct (complete F true name0 found0 (c :: t)) as [name1 found1] eqn:Ec.
         destruct (classify name1 found1 (c :: t)) as [[name found] value] eqn:Ek.
         destruct (advance line col found) as [line' col'].
-        specialize (IH (skipn (length found) (c :: t)) line' col').
-        destruct (loop fu F true doc (skipn (length found) (c :: t)) line' col') as [r st].
+        set (afS' := if doc || negb (tokty_eqb name T_COMMENT) then tokty_eqb name T_S else afS).
+        specialize (IH afS' (skipn (length found) (c :: t)) line' col').
+        destruct (loop fu F true doc afS' (skipn (length found) (c :: t)) line' col') as [r st].
         cbn [fst snd] in *. intros H. destruct (IH H) as (init & e & -> & Hi & He).
         eexists (_ :: init), e. repeat split; [|assumption].
         constructor; [|assumption]. unfold not_eof. cbn [fst].
-        destruct (doc || negb (tokty_eqb name T_COMMENT)); [|exact I]. cbn [ty].
+        destruct ((doc || negb (tokty_eqb name T_COMMENT)) && negb (afS && tokty_eqb name T_S)); [|exact I]. cbn [ty].
         eapply classify_name_not_eof; [|exact Ek].
         apply complete_name in Ec. destruct Ec as [->|[->| ->]]; try reflexivity.
         apply scan_tok in Es. destruct Es as (r0 & a & Hin & _).
@@ -514,8 +519,8 @@ Proof.
        else ([], s1, 1)) as [[cs s2] col2] eqn:Ec.
   assert (Hc : Forall not_eof cs).
   { destruct (starts_with s_charset_sp s1); inversion Ec; subst; repeat constructor. }
-  pose proof (loop_eof F doc (S (length s2)) s2 1 col2) as Hl.
-  destruct (loop (S (length s2)) F true doc s2 1 col2) as [r st]. cbn [fst snd] in *.
+  pose proof (loop_eof F doc (S (length s2)) false s2 1 col2) as Hl.
+  destruct (loop (S (length s2)) F true doc false s2 1 col2) as [r st]. cbn [fst snd] in *.
   intros H. destruct (Hl H) as (init & e & -> & Hi & He).
   exists (bom ++ cs ++ init), e. rewrite <- !app_assoc. repeat split; [|assumption].
   apply Forall_app. split; [assumption|]. apply Forall_app. now split.
